@@ -161,6 +161,13 @@ def evaluate(cfg):
             o.call()
             sel = [idx[t] for t in lst]
             o.cmp("shuffled 5-list", got, refall[:, :, sel], TOL, scall[:, :, sel])
+        # every list length 1..4 (a 3-long list is a 3x3 array: its rows, not its columns, are the triples)
+        for lst in ([(2, 0, 1)], [(0, 1, 3), (1, 0, 0), (2, 2, 0)], [(1, 2, 0), (0, 0, 1), (3, 0, 1)],
+                    [(0, 1, 0), (2, 1, 1), (0, 0, 0), (1, 3, 2)]):
+            got = moment_integral(g, Cn, np.array(lst))
+            o.call()
+            sel = [idx[t] for t in lst]
+            o.cmp("%d-long list" % len(lst), got, refall[:, :, sel], TOL, scall[:, :, sel], key="list-length")
     else:
         orders = GEN12[:11]
         ref = oneel.matrix_multi(shells, shells, [oneel.MOMENT(*t) for t in orders], C)
